@@ -5,6 +5,7 @@ import Qryn.Prof.Selector
 import Qryn.Prom.Stepped
 import Qryn.Prom.Downsample
 import Qryn.Prom.Labels
+import Qryn.Read.SeriesOrder
 /-! Line protocol for C17.
     `c17cursor <samples> <ops>` — samples `ts:v,ts:v,…` (`-` = empty slice), ops `n` (Next), `a` (At),
     `s<t>` (Seek t) comma separated; answer: outputs in call order, `T`/`F`/`ts:v`/`!` (fault), comma separated.
@@ -28,6 +29,11 @@ import Qryn.Prom.Labels
     the meaning of that statement (`Prom.Labels.*Eval` over `FpUnion.eval`, 64-bit shift): index rows as for `c17fpeval`,
     `time_series` rows `date~fp~labels~type` (hex date / labels); answer: the hex strings returned, in order, comma separated
     (`-` = none).
+    `c17hints <qstart> <qend> <step> <lookback> <range> <off> <func|->` — `Stepped.engineHints`: `<start> <end> <step> <range> <func|->`.
+    `c17route <start> <end> <step> <range> <func|->` — `Stepped.usesRaw`: `raw` or `down`; then the class of the function:
+    `instant` / `range` / `other`.
+    `c17order <label sets>` — label sets separated by `;`, each `hexname=hexvalue,…` in name order (`_` = no label); answer: the
+    same sets in the order the final `sort.Slice` of `Select` gives them (`Read.SeriesOrder.sortSeries`).
     `c17scan <fromNs> <toNs>` — hex of the two bounds of the raw-sample scan as rendered.
     `c17profsql <table> <hex fromDate> <hex toDate> <selectors>` — selectors `eq|ne|re|nre:<hex name>:<hex value>[:e]`
     (`:e` = Go's regexp finds the anchored pattern in the empty string);
@@ -356,7 +362,27 @@ def handle : List String → Option String
   | ["c17stepsql", a, b, c, d, f] => stepSql a b c d f
   | ["c17select", rows, keys] => selectOp rows keys
   | ["c17profsql", table, d1, d2, sels] => profsql table d1 d2 sels
+  | ["c17order", sets] => do
+    let parseSet (x : String) : Option Qryn.Read.SeriesOrder.Labels :=
+      if x = "_" then some [] else
+      allSome ((x.splitOn ",").map (fun kv => match kv.splitOn "=" with
+        | [a, b] => do
+          let a ← Qryn.ofHex a
+          let b ← Qryn.ofHex b
+          some (a, b)
+        | _ => none))
+    let showSet (l : Qryn.Read.SeriesOrder.Labels) : String :=
+      if l.isEmpty then "_" else ",".intercalate (l.map (fun kv => Qryn.hexOut kv.1 ++ "=" ++ Qryn.hexOut kv.2))
+    let ls ← allSome ((sets.splitOn ";").map parseSet)
+    some (";".intercalate ((Qryn.Read.SeriesOrder.sortSeries ls).map showSet))
   | ["c17fpeval", date, tp, ms, rows, tbl] => fpEval date tp ms rows tbl
+  | ["c17hints", a, b, c, lb, rg, off, f] => do
+    let q : Qryn.Prom.Stepped.Query := ⟨← a.toInt?, ← b.toInt?, ← c.toInt?⟩
+    let h := Qryn.Prom.Stepped.engineHints q (← lb.toInt?) (← rg.toInt?) (← off.toInt?) (if f = "-" then "" else f)
+    some s!"{h.start} {h.stop} {h.step} {h.range} {if h.func = "" then "-" else h.func}"
+  | ["c17route", a, b, c, d, f] => (hintsOf a b c d f).map (fun h =>
+      (if Qryn.Prom.Stepped.usesRaw h then "raw" else "down") ++ " " ++
+      (match Qryn.Prom.Stepped.classOf h.func with | .instant => "instant" | .range => "range" | .other => "other"))
   | ["c17lblsql", kind, table, d1, d2, tp, limit, name, sels] => lblSql kind table d1 d2 tp limit name sels
   | ["c17lbleval", kind, d1, d2, tp, limit, name, sels, rows, ts, tbl] => lblEval kind d1 d2 tp limit name sels rows ts tbl
   | ["c17fpsql", table, date, tp, ms] => fpsql table date tp ms
